@@ -347,6 +347,10 @@ def dtHomogeneous (xs : List Str) : Bool :=
   | [] => true
   | z :: zs => zs.all (· == z)
 
+def ColVals.dtInhomogeneous : ColVals → Bool
+  | .dt xs => !dtHomogeneous xs
+  | _ => false
+
 /-- `pd.DataFrame(columns)` needs equal column lengths ("All arrays must be of the same length");
     `make_table_dataframe` then validates units against dtypes for a non-empty frame: a datetime
     column held as object has dtype kind 'O', whose expected unit is "text" -/
@@ -356,7 +360,7 @@ def makeTable (ext : Ext) (cells : List Row) (f0 : Fixer) : Except PyExc (Precur
   | [] => pure (p, f)
   | c :: cs =>
     if !cs.all (fun d => d.length = c.length) then throw .valueError
-    if c.length > 0 && p.columns.any (fun d => match d with | .dt xs => !dtHomogeneous xs | _ => false)
+    if c.length > 0 && p.columns.any ColVals.dtInhomogeneous
     then throw .columnUnit
     pure (p, f)
 
